@@ -2,9 +2,9 @@
 From Coq Require Import Reals ZArith List Lra.
 From PyLib Require Import PyVal PyBuiltins Ideal Sphere.
 From Spec Require Import AngleSpec.
-From Gen Require Import M_base M_Angle M_Epoch M_Coordinates M_Earth M_Sun M_Minor.
+From Gen Require Import M_base M_Angle M_Epoch M_Coordinates M_Earth M_Sun M_Minor M_Pluto.
 From Gen Require Import M_Mercury M_Venus M_Mars M_Jupiter M_Saturn M_Uranus M_Neptune.
-From Proofs.C09 Require Import C09_spec C09_minor C09_A_defs C09_geo C09_body C09_planets C09_mbody C09_mgeo.
+From Proofs.C09 Require Import C09_spec C09_minor C09_A_defs C09_geo C09_body C09_planets C09_mbody C09_mgeo C09_pluto.
 Import ListNotations.
 Open Scope R_scope.
 
@@ -274,6 +274,28 @@ Theorem C09_minor_direction (aa bb cc am bm cm w sxj syj szj dt1 : R) (vf rf : R
   gz = norm3 gx gy gz * sin (bet_of gx gy gz).
 Proof. exact (minor_direction aa bb cc am bm cm w sxj syj szj dt1 vf rf). Qed.
 
+(* [ideal, generated code] Pluto.geocentric_position for an epoch whose year is within 1885..2099:
+   Pluto at the epoch, light time tau = 0.0057755183*|Pluto + Sun|, Pluto again at epoch - tau =: j1
+   (Epoch.__sub__ abstracted), ecliptic J2000 -> equatorial with sin/cos eps = 0.397777156/0.917482062,
+   ra = atan2(eta, xi) in [0,360), dec = asin(zeta/delta) of Pluto(j1) + Sun(j) *)
+Theorem C09_pluto_geo (yv j j1 l1 b1 r1 l2 b2 r2 sxj syj szj : R) :
+  Epoch_year Rops (C09_geo.ep j) = VFloat yv -> 1885 <= yv <= 2099 ->
+  Pluto_geometric_heliocentric_position Rops (C09_geo.ep j) = VTuple [ang l1; ang b1; VFloat r1] ->
+  Sun_rectangular_coordinates_j2000 Rops (C09_geo.ep j) = VTuple [VFloat sxj; VFloat syj; VFloat szj] ->
+  Epoch___sub__ Rops (C09_geo.ep j) (VFloat (tauP l1 b1 r1 sxj syj szj)) = C09_geo.ep j1 ->
+  Pluto_geometric_heliocentric_position Rops (C09_geo.ep j1) = VTuple [ang l2; ang b2; VFloat r2] ->
+  delta2 l2 b2 r2 sxj syj szj <> 0 ->
+  Pluto_geocentric_position Rops (C09_geo.ep j) =
+  VTuple [ang (pos360 (red360 (atan2 (eta2 l2 b2 r2 syj) (xi2 l2 b2 r2 sxj) * (180 / PI))));
+          ang (red360 (asin (zeta2 l2 b2 r2 szj / delta2 l2 b2 r2 sxj syj szj) * (180 / PI)))].
+Proof. exact (pluto_geo yv j j1 l1 b1 r1 l2 b2 r2 sxj syj szj). Qed.
+
+(* [ideal, generated code] outside 1885..2099 Pluto.geocentric_position raises ValueError *)
+Theorem C09_pluto_refuses (yv j : R) :
+  Epoch_year Rops (C09_geo.ep j) = VFloat yv -> yv < 1885 \/ 2099 < yv ->
+  Pluto_geocentric_position Rops (C09_geo.ep j) = VErr ValueError.
+Proof. exact (pluto_geo_refuses yv j). Qed.
+
 Redirect "C09_final_stage_direction.assumptions" Print Assumptions C09_final_stage_direction.
 Redirect "C09_elongation_range.assumptions" Print Assumptions C09_elongation_range.
 Redirect "C09_elongation_cos.assumptions" Print Assumptions C09_elongation_cos.
@@ -296,3 +318,5 @@ Redirect "C09_minor_geo_near_parabolic.assumptions" Print Assumptions C09_minor_
 Redirect "C09_minor_helio.assumptions" Print Assumptions C09_minor_helio.
 Redirect "C09_minor_elongation.assumptions" Print Assumptions C09_minor_elongation.
 Redirect "C09_minor_direction.assumptions" Print Assumptions C09_minor_direction.
+Redirect "C09_pluto_geo.assumptions" Print Assumptions C09_pluto_geo.
+Redirect "C09_pluto_refuses.assumptions" Print Assumptions C09_pluto_refuses.
